@@ -39,6 +39,27 @@ CHECKS = {
     "C14": dict(cat="exploration", tech="differential PBT: entry-style API chains vs plain get/insert/remove on the model, biased to full load",
                 text="entry, entry_ref, raw_entry(_mut) via from_key/from_key_hashed_nocheck/from_hash, rustc_entry: discriminant, return values and effects of method chains compared with the model from states biased to growth_left==0, tombstones and the singleton.",
                 ref="9.14"),
+    "C02": dict(cat="exploration", tech="PBT over safe-API programs x 19 element layouts x object life cycles (drop / mem::forget), monitored by a guarded checking allocator, reference validation, structure validator and debug/UB-precondition assertions",
+                text="Generated programs over HashTable/HashSet/HashMap for 19 (size, align) element layouts incl. zero-sized, over-aligned, 200-byte and tracked ones; iterators, drains, extract_ifs, entries are advanced j steps then dropped or forgotten and the collection keeps being used. Out-of-bounds writes hit red zones, freed blocks are poisoned and quarantined, every reference is checked for alignment, membership in the data part of the live block and an element self-check; runner crashes are captured and minimised.",
+                ref="9.2"),
+    "C07": dict(cat="exploration", tech="PBT over pairs of set histories vs mathematical sets (BTreeSet), size_hint bound checks",
+                text="Two HashSets with independent histories/capacities/hash plans: union, intersection, difference, symmetric_difference (next/fold/clone, size_hint bounds at every step), predicates and ==, operator and assigning forms, replace/take/get_or_insert/get_or_insert_with (incl. refused non-equivalent value)/entry, compared with BTreeSet results as multisets.",
+                ref="9.7"),
+    "C08": dict(cat="exploration", tech="PBT over (state, n, m, layout, collection kind) with a counting allocator and the capacity inequalities of the statement",
+                text="States from histories x n, m on and around the 7/8*2^k and 2^k boundaries x 19 layouts x table/set/map: capacity>=len, reserve/with_capacity lower bounds, zero allocator calls while inserting capacity()-len() fresh keys, zero calls for new/default/with_capacity(0) (counting global allocator), clear/drain keep the block, allocation_size()==ledger bytes, the shrink inequalities incl. comparison with a fresh with_capacity(max(len,m)).",
+                ref="9.8"),
+    "C12": dict(cat="exploration", tech="PBT over (state, additional on arithmetic boundaries, layout, allocator behaviour) with a result trichotomy and nothing-changed snapshot",
+                text="try_reserve from generated states with `additional` on every arithmetic boundary, for 19 layouts and 3 collection kinds, against an allocator that grants, refuses the j-th request or refuses above a limit; Ok / CapacityOverflow / AllocError(refused layout) trichotomy, never a panic, valid layouts only, and on Err nothing changed and nothing leaked.",
+                ref="9.12"),
+    "C17": dict(cat="exploration", tech="exhaustive + boundary + seeded-random enumeration of the arithmetic functions through hooks vs independent u128 arithmetic",
+                text="capacity_to_buckets, bucket_mask_to_capacity, calculate_layout_for, TableLayout::new and the probe sequence are evaluated through read-only hooks on both group widths over exhaustive low ranges, +-4096 (quick) / +-65536 (thorough) neighbourhoods of every 2^k and 7/8*2^k up to usize::MAX, extreme (size, align) pairs and seeded random 64-bit inputs; exhaustive only in the stated ranges.",
+                ref="9.17"),
+    "C18": dict(cat="exploration", tech="differential PBT (SSE2 build vs portable twin in one process, step-wise transcript) + exhaustive byte-window enumeration of the scanner primitives vs bytewise reference",
+                text="Every generated map/table case runs on both back-ends; both must satisfy the model at every step and produce identical per-step digests of (len, sorted contents). The scanner primitives are compared with their bytewise definitions on all 2^16 values of every adjacent byte pair in several background groups plus random groups.",
+                ref="9.18"),
+    "C20": dict(cat="exploration", tech="PBT over (entry stream with duplicates, claimed size hint, error position, format) with round-trip, last-wins model and allocation ledger",
+                text="serde_json round trips and serde value deserializers over lying iterators for maps and sets of tracked elements: equality after round trip, last value wins, errors returned with every built element dropped once and nothing left allocated, reservation before the first read bounded by with_capacity(4096), deserialize_in_place clears first.",
+                ref="9.20"),
     "C15": dict(cat="exploration", tech="PBT over (state, N, key tuples) with pointer-distinctness and write-through oracle",
                 text="get_many_mut / get_many_key_value_mut (HashMap) and get_many_mut (HashTable, closures that may match several entries): panic iff two requests name one entry, distinct addresses, right targets, sentinels land in the model's entries.",
                 ref="9.15"),
